@@ -92,7 +92,7 @@ void gen_fw_knobs(Rng& r, Plan& p) {
     mod3 |= (u16)(r.below(8) << 1);
     mod3 |= (u16)(r.below(2) << 13 | r.below(2) << 14 | r.below(2) << 15);
     p.set_knob("mod3", mod3);
-    const u16 irqs[5] = {1 << 9, 1 << 10, 1 << 11, 1 << 14, 1 << 15};
+    const u16 irqs[6] = {1 << 9, 1 << 10, 1 << 11, 1 << 12, 1 << 14, 1 << 15};
     u16 en[3] = {0, 0, 0}, env = 0;
     for (u16 bit : irqs) {
         int where = (int)r.below(6);
@@ -120,6 +120,9 @@ void gen_fw_knobs(Rng& r, Plan& p) {
     bool bt = r.chance(1, 2);
     p.set_knob("bt_en", bt);
     p.set_knob("bt_words", bt ? (s64)r.below(19) : 0);
+    bool bt1 = r.chance(1, 3);
+    p.set_knob("bt1_en", bt1);
+    p.set_knob("bt1_words", bt1 ? (s64)r.below(19) : 0);
     p.set_knob("busy", (s64)r.below(7));
     p.set_knob("main", (s64)(r.chance(1, 8) ? 1 : r.chance(1, 5) ? 2 : 0));
     for (int h = 0; h < 4; ++h) {
